@@ -41,8 +41,8 @@ def m_instances(ctx):
     s = dict(syms=["A"], qtys=[1], prices=[8, 12], fee=(1, 16), start=30, maxact=3, dups=True, coc=False)
     q = [("futures", dict(f, depth=5, maxord=3)), ("spot", dict(s, depth=5, maxord=3)),
          ("spot", dict(s, coc=True, depth=5, maxord=3))]
-    t = [("futures", dict(f, depth=7, maxord=4)), ("futures", dict(f, syms=["A", "B"], lev=4, depth=5, maxord=3)),
-         ("spot", dict(s, depth=7, maxord=4)), ("spot", dict(s, coc=True, depth=7, maxord=4)),
+    t = [("futures", dict(f, depth=6, maxord=3)), ("futures", dict(f, syms=["A", "B"], lev=4, depth=4, maxord=3)),
+         ("spot", dict(s, depth=7, maxord=4)), ("spot", dict(s, coc=True, depth=6, maxord=4)),
          ("spot", dict(s, syms=["A", "B"], depth=5, maxord=3))]
     return ctx.pick(q, t)
 
@@ -71,7 +71,7 @@ def run(ctx):
     for kind, inst in m_instances(ctx):
         r = tlc.run("Futures" if kind == "futures" else "Spot",
                     cfg_text=acct.model_cfg(kind, inst, view="ViewFull", invariants=invs[kind], properties=props),
-                    workers=ctx.pick(4, 16), coverage=True, timeout=ctx.pick(600, 1500))
+                    workers=ctx.pick(4, 16), coverage=ctx.quick, timeout=ctx.pick(600, 1500))
         label = "%s Dups syms=%d coc=%s depth=%d maxord=%d" % (kind, len(inst["syms"]), inst["coc"], inst["depth"], inst["maxord"])
         ctx.add_tlc(r, label)
         ctx.log("M %s: %d generated, %d distinct, %.0fs" % (label, r.generated, r.distinct, r.wall))
@@ -80,7 +80,7 @@ def run(ctx):
                           "%s violates %s\n%s" % (label, r.violation["name"], r.violation["trace"][:4000]),
                           {"kind": kind, "model_violation": r.violation["name"], "inst": inst})
         for a in ("Submit", "Cancel", "Execute", "Flush", "CancelAll", "Prune"):
-            if r.coverage.get(a, (0, 0))[1] == 0:
+            if r.coverage and r.coverage.get(a, (0, 0))[1] == 0:
                 raise Machinery("vacuity: action %s never taken in %s" % (a, label))
     # ---------------------------------------------------------------- R + T per kind
     total = bad_total = n_r = n_t = n_v = n_vev = 0
